@@ -48,6 +48,7 @@ class Guard:
   shadow = None  # {(col, path tuple, name): total last written by the program through put / variable init}
   stale = None  # reads that did not return the value the program last wrote there
   leaked = None  # Scope objects seen during the call (when recording): they outlive it
+  nested = None  # results of nested applies, in execution order (when recording)
 
   @classmethod
   def reset(cls):
@@ -57,6 +58,7 @@ class Guard:
     cls.shadow = None
     cls.stale = None
     cls.leaked = None
+    cls.nested = None
 
   @classmethod
   def wrote(cls, col, path, name, tot):
@@ -291,6 +293,29 @@ class LinenApi:
   def kid_name(self, k):
     return k.name
 
+  def nested(self, st, a):
+    """`y, state = Sub().apply(V, a, mutable=m, capture_intermediates=False)` (or init_with_output) on a sub-network"""
+    key = ('n', id(st))
+    if key not in self.classes.cache:
+      stmt = {'op': 'child', 'cls': 'Sub', 'name': None, 'body': st['body']}
+      self.classes.cache[key] = (self.classes.compact_class(stmt), stmt)
+    sub = self.classes.cache[key][0]()
+    mut = filter_py(st['m'])
+    rngs = {'params': the_key()}
+    if st.get('init'):
+      r = sub.init_with_output(rngs, a, mutable=mut)
+    else:
+      r = sub.apply(unflatten_vars(st['vars']), a, rngs=rngs, mutable=mut)
+    y, state = (r, {}) if mut is False else (r[0], r[1])
+    dg = F32(1000 * len(state))
+    fj, _ = flatten_vars(state) if not is_tracer(y) else ({'cols': [], 'vars': []}, [])
+    for c in sorted(state.keys()):
+      for leaf in jax.tree_util.tree_leaves(unfreeze(state[c]) if isinstance(state[c], FrozenDict) else state[c]):
+        dg = add(dg, total(leaf))
+    if Guard.nested is not None and not is_tracer(y):
+      Guard.nested.append((out_int(y), fj))
+    return y, dg
+
 
 def run_body(api, body, xin):
   """Executes the statements of one module body through `api`; returns the body's result."""
@@ -327,6 +352,10 @@ def run_body(api, body, xin):
     elif op == 'call':
       a = ev(st['e'], x, env)
       env.append(api.call(kids[st['slot']], make_arg(a, st.get('w'))))
+    elif op == 'nested':
+      y, dg = api.nested(st, ev(st['e'], x, env))
+      env.append(y)
+      env.append(dg)
     else:
       raise ValueError(op)
   if Guard.calls is not None and not is_tracer(out) and not is_tracer(x):
@@ -421,6 +450,10 @@ class Classes:
           elif op == 'call':
             a = ev(st2['e'], x, env)
             env.append(kids[st2['slot']](make_arg(a, st2.get('w'))))
+          elif op == 'nested':
+            y, dg = api.nested(st2, ev(st2['e'], x, env))
+            env.append(y)
+            env.append(dg)
           else:
             raise ValueError(op)
         if Guard.calls is not None and not is_tracer(out) and not is_tracer(x):
@@ -449,7 +482,7 @@ def walk(body):
 
 
 def uses_linen_only(body):
-  return any(st['op'] in ('sow', 'perturb') for st in walk(body))
+  return any(st['op'] in ('sow', 'perturb', 'nested') for st in walk(body))
 
 
 def expr_const(e):
@@ -857,7 +890,7 @@ class Rendered:
       if self.style == 'core':
         r = core_scope.init(self.fn, mutable=mutable)(rngs, x)
       else:
-        kw = {'capture_intermediates': True} if capture else {}
+        kw = {'capture_intermediates': _capture_arg(capture)} if capture else {}
         r = self.module.init_with_output(rngs, x, mutable=mutable, **kw)
       if mutable is False and not capture:
         return ('ok', (r, None))  # init goes through core.apply, which returns the bare output then
@@ -871,13 +904,18 @@ class Rendered:
       if self.style == 'core':
         r = core_scope.apply(self.fn, mutable=mutable)(variables, x, rngs=rngs)
       else:
-        kw = {'capture_intermediates': True} if capture else {}
+        kw = {'capture_intermediates': _capture_arg(capture)} if capture else {}
         r = self.module.apply(variables, x, rngs=rngs, mutable=mutable, **kw)
       if mutable is False and not capture:
         return ('ok', (r, None))
       return ('ok', (r[0], r[1]))
     except Exception as e:
       return ('err', classify(e))
+
+
+def _capture_arg(capture):
+  """True, or an equivalent user filter (`capture='fn'`)"""
+  return (lambda mdl, method_name: method_name == '__call__') if capture == 'fn' else True
 
 
 def styles_for(prog):
@@ -1205,6 +1243,41 @@ def gen_restore_prog(rng):
   return level(0)
 
 
+def gen_nested_prog(rng):
+  """a module that functionalises a sub-network inside its body: `y, st = Sub().apply(V, e, mutable=m)` (inner
+  variables constant, obtained from an inner init run by the generator) or `Sub().init_with_output(...)`, and
+  returns a value that depends on both the inner output and the returned state"""
+  inner = gen_body(rng, rng.choice([0, 0, 1]), rng.randrange(2, 6), linen=True)
+  body, nenv = [], 0
+  if rng.random() < 0.5:
+    body.append({'op': 'param', 'n': 'w0', 'shape': rng.choice([[], [2]]), 'init': rng.randrange(1, 3)})
+    nenv += 1
+  if rng.random() < 0.3:
+    body.append({'op': 'sow', 'c': 'intermediates', 'n': 's0', 'e': 'x'})
+  st = {'op': 'nested', 'body': inner, 'e': gen_expr(rng, nenv, 1), 'vars': {'cols': [], 'vars': []}}
+  wide = [True, True, {'deny': 'params'}, {'deny': 'intermediates'}, ['intermediates', 'stats', 'cache', 'inter', 'params', 'perturbations'],
+          {'deny': []}]
+  if rng.random() < 0.45:
+    st['init'] = True
+    st['m'] = rng.choice(wide)
+  else:
+    Guard.reset()
+    r = Rendered(inner, 'compact').init({'params': the_key()}, np.asarray(1, F32), True)
+    if r[0] == 'ok' and Guard.peak < LIMIT:
+      fj, probs = flatten_vars(r[1][1])
+      if not probs:
+        st['vars'] = fj
+        st['m'] = rng.choice(wide + [False, 'stats', gen_filter(rng), gen_filter(rng)])
+    if 'm' not in st:
+      st['init'] = True
+      st['m'] = True
+  body.append(st)
+  body.append({'op': 'ret', 'e': {'+': [{'l': nenv}, {'l': nenv + 1}]}})
+  if rng.random() < 0.3:
+    body = [{'op': 'child', 'cls': 'C', 'name': None, 'body': body}, {'op': 'call', 'slot': 0, 'e': 'x'}, {'op': 'ret', 'e': {'l': 0}}]
+  return body
+
+
 CLASH_KINDS = [
   'child-child', 'child-auto', 'var-var', 'param-param', 'child-var', 'var-child', 'param-var-other-col',
   'var-var-other-col', 'sow-child', 'param-child',
@@ -1398,7 +1471,7 @@ def written_values_lost(r, shadow, stale):
 
 
 def model_request(sc, conv):
-  cfg = cfg_json(sc['style'], conv, capture=sc.get('capture', False))
+  cfg = cfg_json(sc['style'], conv, capture=bool(sc.get('capture', False)))
   V = sc['vars'] if sc['kind'] == 'apply' else {'cols': [], 'vars': []}
   return ('apply', [cfg, sc['prog'], sc['mutable'], V, ['params'] if sc['rngs'] else [], sc['x'], sc.get('xw')])
 
